@@ -78,6 +78,10 @@ func famHist(out string) {
 			p.PBadTx, p.PCorrupt = 25, 25 // rejection heavy
 		case 3:
 			p.PBadTx, p.PCorrupt, p.PFork, p.PReorg = 0, 0, 15, 25 // clean reorganisations
+		case 4:
+			p.Steps, p.PBadTx, p.PCorrupt, p.Scenario = 6, 0, 0, "deepfork"
+		case 5:
+			p.PBadTx, p.PCorrupt, p.Scenario = 0, 5, "bigblock"
 		}
 		h := w.genHistory(p)
 		class := fmt.Sprintf("hist/fork=%d/bad=%d", p.PFork, p.PBadTx)
